@@ -147,10 +147,11 @@ theorem init_inv (il : Bool) (tsnA tsnB : Nat) (ha : 0 < tsnA) (hb : 0 < tsnB) :
     · rw [h4]; intro h o ho; simp at ho
   have hR : ∀ e : Ep, e.reg = [] → e.objs = [] → e.rcv = [] → RInv e := by
     intro e h1 h2 h3
-    refine ⟨?_, ?_, ?_, ?_⟩
+    refine ⟨?_, ?_, ?_, ?_, ?_⟩
     · rw [h1]; intro sid h hl; simp [lookup] at hl
     · rw [h2]; intro h o ho; simp at ho
     · rw [h3]; intro t ht; cases ht
+    · rw [h2]; intro h o ho; simp at ho
     · rw [h2]; intro h o ho; simp at ho
   have hX : ∀ S R : Ep, S.sent = [] → S.reconfigs = [] → R.rreqs = [] → R.perf = [] → R.rcv = [] → R.objs = [] →
       R.cum < S.nextTSN → XInv S R [] := by
@@ -159,7 +160,7 @@ theorem init_inv (il : Bool) (tsnA tsnB : Nat) (ha : 0 < tsnA) (hb : 0 < tsnB) :
     · intro p hp; cases hp
     · rw [h2]; intro r hr; cases hr
     · rw [h3]; intro r hr; cases hr
-    · rw [h3]; intro r hr; cases hr
+    · rw [h3]; exact List.Pairwise.nil
     · rw [h4]; intro r hr; cases hr
     · rw [h5]; intro r hr; cases hr
     · rw [h6]; intro h o ho; simp at ho
